@@ -221,3 +221,15 @@ pub fn random_edit(rng: &mut Rng, text: &[u8], boundaries: &[usize], alphabet: &
 pub fn zoo_corpus(name: &str) -> Option<String> {
     std::fs::read_to_string(zoo::verif_root().join("corpus").join(format!("{name}.txt"))).ok()
 }
+
+/// Cap the address space of this process (default 8 GiB) so a runaway parse cannot exhaust the machine.
+pub fn limit_resources() {
+    extern "C" {
+        fn setrlimit(resource: i32, rlim: *const [u64; 2]) -> i32;
+    }
+    let gb: u64 = std::env::var("VERIF_MEM_GB").ok().and_then(|s| s.parse().ok()).unwrap_or(8);
+    let lim = [gb << 30, gb << 30];
+    unsafe {
+        setrlimit(9 /* RLIMIT_AS */, &lim);
+    }
+}
